@@ -9,7 +9,7 @@ import sys
 import time
 import struct
 try:
-    import importlib
+    import importlib.util
 
     try:
         PY_MAGIC_NUMBER = importlib.util.MAGIC_NUMBER
